@@ -330,6 +330,70 @@ func TestC14(t *testing.T) {
 		}
 	}
 
+	// ---- (2d) too-short functions whose last instruction before the RET carries an immediate whose width depends on a
+	//           prefix or on the opcode (16-bit immediates behind 0x66, imm8, imm64): their extent must be measured with
+	//           the instructions' true lengths - one int3 (or two), then a plain neighbour
+	{
+		tails := [][]byte{
+			{0x66, 0xB8, 0x34, 0x12},                   // mov ax, 0x1234
+			{0x66, 0x3D, 0x34, 0x12},                   // cmp ax, 0x1234
+			{0x66, 0x81, 0xC1, 0x34, 0x12},             // add cx, 0x1234
+			{0x66, 0xC7, 0xC0, 0x34, 0x12},             // mov ax, 0x1234 (C7 form)
+			{0x66, 0x05, 0x34, 0x12},                   // add ax, 0x1234
+			{0x83, 0xC0, 0x7F},                         // add eax, 0x7f (imm8)
+			{0x6A, 0x01, 0x58},                         // push 1; pop rax
+			{0x66, 0x90, 0xB8, 0x01, 0x00, 0x00, 0x00}, // 2-byte nop; mov eax, 1
+			{0xB0, 0x01},                               // mov al, 1
+			{0x66, 0xA9, 0x34, 0x12},                   // test ax, 0x1234
+		}
+		tBase, tMem := c14Map(2 * len(tails))
+		rep.Note("synthetic-tails", fmt.Sprintf("%#x-%#x", tBase, tBase+uintptr(len(tMem))))
+		for ti, tail := range tails {
+			for _, pad := range []int{1, 2} {
+				mem := tMem[(ti*2+pad-1)*c14Page : (ti*2+pad)*c14Page]
+				base := tBase + uintptr((ti*2+pad-1)*c14Page)
+				for i := range mem {
+					mem[i] = 0xCC
+				}
+				off := 0x100 + ti*3
+				fn := append(append([]byte{}, tail...), 0xC3)
+				copy(mem[off:], fn)
+				nb := off + len(fn) + pad
+				copy(mem[nb:], []byte{0xB8, 0x11, 0x22, 0x33, 0x00, 0x48, 0x89, 0xC1, 0x48, 0x01, 0xC8, 0x48, 0x29, 0xC8, 0xC3})
+				copy(mem[nb+0x40:], []byte{0xB8, 0x11, 0x22, 0x33, 0x00, 0xC3}) // ends the neighbour's own padding
+				shadow := append([]byte{}, mem...)
+				entry := base + uintptr(off)
+				rep.Journal(map[string]interface{}{"part": "synthetic-tail", "tail": fmt.Sprintf("% x", tail), "pad": pad})
+				var g *Guard
+				var perr error
+				func() {
+					defer func() {
+						if r := recover(); r != nil {
+							perr = fmt.Errorf("panic: %v", r)
+						}
+					}()
+					g, perr = PtrTrampoline(entry, c14Repl, nil)
+				}()
+				rep.Eval(1)
+				c := map[string]interface{}{"tail": fmt.Sprintf("% x", tail), "pad": pad, "size": len(fn)}
+				if perr == nil && g != nil {
+					rep.Violate("C14/short-function-accepted", fmt.Sprintf("a %d-byte function (% x) followed by %d int3 and a neighbour was accepted", len(fn), fn, pad), c)
+					g.Apply()
+					g.UnpatchWithLock()
+				}
+				c14ForgetPatch(entry)
+				if !bytes.Equal(mem, shadow) {
+					rep.Violate("C14/refused-but-modified", fmt.Sprintf("a %d-byte function (% x) followed by %d int3: bytes of the region changed (first at %d, function at %d, neighbour at %d)", len(fn), fn, pad, firstDiff(mem, shadow), off, nb), c)
+				}
+				if got := c14Call(base + uintptr(nb)); got != 0x332211 {
+					rep.Violate("C14/neighbour-corrupted", fmt.Sprintf("neighbour behind a %d-byte function (% x) returns %#x", len(fn), fn, got), c)
+				}
+				rep.Stat("synthetic_tails", 1)
+				rep.Class(fmt.Sprintf("synth-tail/%02x%02x/pad%d", tail[0], tail[1], pad))
+			}
+		}
+	}
+
 	// ---- (2a) two tiny functions back to back, both mocked, the mocks removed in either order: every install and
 	//           every removal rewrites the 13 entry bytes of its own target and nothing else
 	{
@@ -810,4 +874,13 @@ func TestC14(t *testing.T) {
 func c14CallNeighbour(addr uintptr, skip int) int {
 	// the neighbour begins with the fingerprint bytes (not meant to be executed): call past them
 	return c14Call(addr + uintptr(skip))
+}
+
+func firstDiff(a, b []byte) int {
+	for i := range a {
+		if a[i] != b[i] {
+			return i
+		}
+	}
+	return -1
 }
